@@ -154,7 +154,7 @@ def run(ctx):
             N = prog.require_func('snoopy_tsrm_createNewThreadData')
             D = prog.require_func('snoopy_tsrm_dtor')
             allocated = set()
-            for n in N.body.walk():
+            for n in [x for g in common.with_helpers(prog, N) for x in g.body.walk()]:
                 if n.k == 'BinaryOperator' and n['op'] == '=':
                     r = strip(n.ch[1])
                     if r.k == 'CallExpr' and r.get('callee') in ('malloc', 'calloc'):
